@@ -2,7 +2,7 @@ from harness.props import base
 from harness import preds
 from harness import impl, streams
 LEVEL = 'proof'
-VFILES = ['Engine.v', 'LL1.v', 'LL1Inst.v', 'LL1Engine.v', 'EngineSound.v', 'EngineConfine.v', 'Properties/C05.v']
+VFILES = ['Engine.v', 'LL1.v', 'LL1Inst.v', 'LL1Engine.v', 'EngineSound.v', 'EngineConfine.v', 'EngineRecover.v', 'Properties/C05.v']
 TECHNIQUE = ('Coq soundness proof of the plan-driven LL(1) engine (invariant: every stack frame holds derivations that drive its rule automaton; verified boolean '
              'checkers over the regenerated tables, one vm_compute obligation per grammar) + refinement to the extracted Engine model + parse/plans correspondence '
              '+ conformance predicate search on implementation trees')
@@ -12,8 +12,10 @@ EXPLANATION = ('Proved for every shipped grammar (gen/LL1_<v>.v: tables_sound_ok
                'token word; the strict parser returns the same tree, and (C07) so does the recovering one. With the C08 obligations (automata = EBNF rules) each node is a '
                'complete instance of its rule; single-child collapse and the suite / parameter conventions are `collapse` / `convert_node`. Error confinement (EngineConfine.errors_confined, C05_errors_confined_<v>): in every tree the engine returns, strict or recovering, for any token list, an error node / '
                'error leaf is a child only of a node whose rule is in the holder set computed from the regenerated automata (file_input, suite, stmt, compound_stmt and the compound '
-               'statements - no expression, no simple statement) or of another error node; param nodes never hold one. C05_partial: conformance of the non-error nodes of recovered trees and of runs using the '
-               'missing-newline repair is decided by the conformance predicate (DESIGN.md C05 conventions) on implementation trees and by the parse correspondence.')
+               'statements - no expression, no simple statement) or of another error node; param nodes never hold one. Recovered trees and repair runs (EngineRecover.recovered_conform, C05_recovered_conform_<v>): every tree the engine returns, both modes, any token list, is convert_node of the collapsed form of a '
+               'derivation with error markers in which every rule node - also inside error nodes - is a complete instance of its rule, an error marker standing for a sequence of nonterminal arcs, the stmt arc of a suite and the '
+               'NEWLINE arc of a simple_stmt possibly taken without a child. C05_partial (decided by the conformance predicate on implementation trees and the parse correspondence): that a childless stmt arc only occurs '
+               'next to an error marker, that a missing NEWLINE only occurs in front of the end marker (known finding F52: it does not, after a bracket break), and the yield of recovered derivations.')
 LEVEL_TEXT = EXPLANATION
 
 
